@@ -75,6 +75,8 @@ class Sched:
         self.frozen = False             # True: no more choices offered (default schedule)
         self.eager_start = False        # default-schedule variant: a started thread runs before its starter continues
         self.prefer = None
+        self.handoff = False            # default-schedule variant: a thread woken by the running one runs first
+        self._prev_enabled = set()
         self.died = []                  # (name, exception repr, traceback) for library threads that died
 
     # ---- bookkeeping -------------------------------------------------------------------------
@@ -215,6 +217,13 @@ class Sched:
                     if self.eager_start and self.prefer in nonlazy:
                         default = self.prefer
                     self.prefer = None
+                elif self.handoff:
+                    # hand-off policy: a thread that has just become runnable (woken by the running thread's last
+                    # operation: a packet queued, a lock released, an event set) runs first by default
+                    fresh = [t for t in nonlazy if t is not cur and t.id not in self._prev_enabled]
+                    if fresh:
+                        default = fresh[0]
+                self._prev_enabled = set(t.id for t in nonlazy)
             if self.now > self.time_limit:
                 self._abort('timelimit')
             options = [default] + [t for t in self.threads
